@@ -171,9 +171,11 @@ theorem only_caller_pays (chk : DisabledCheck) (tbl : List MInfo) (hok : tableOk
           simp only [effect, hp] at h
           split at h
           · cases h
-          · injection h with h; subst h
-            refine ⟨?_, Nat.le_refl _, fun e he hs => ⟨e, he, rfl, hs, Nat.le_refl _⟩, .inl ?_, fun _ => .inl rfl⟩ <;>
-              simp [claim, upd, ha, World.setRaw]
+          · split at h
+            · cases h
+            · injection h with h; subst h
+              refine ⟨?_, Nat.le_refl _, fun e he hs => ⟨e, he, rfl, hs, Nat.le_refl _⟩, .inl ?_, fun _ => .inl rfl⟩ <;>
+                simp [claim, upd, ha, World.setRaw]
         | withdraw =>
           have hp : resolve i.payer env .withdraw = env.caller := by
             rcases hpay with hp | ⟨_, hn, _⟩
@@ -555,7 +557,9 @@ theorem specEffect_allow (c : Addr) (call : Call) (w w' : World) (h : specEffect
     simp only [specEffect, effect] at h
     split at h
     · cases h
-    · cases h; exact ⟨fun _ _ he => (nomatch he), fun _ _ _ he => (nomatch he), fun _ _ => rfl⟩
+    · split at h
+      · cases h
+      · cases h; exact ⟨fun _ _ he => (nomatch he), fun _ _ _ he => (nomatch he), fun _ _ => rfl⟩
   | crossChain x y r =>
     simp only [specEffect, effect] at h
     split at h
@@ -746,6 +750,8 @@ theorem redelegate_exact (dis : List (List Char)) (ro : Bool) (addr mid : List C
       · split at h
         · cases h
         · rename_i hlt
+          split at h
+          · cases h
           cases h
           have hr : ∀ x, (claim w env.caller).raw x = w.raw x := fun _ => rfl
           have hs : (claim w env.caller).sharesFor amt = w.sharesFor amt := rfl
@@ -848,9 +854,11 @@ theorem others_delegation_worth_not_reduced (i : MInfo) (p c : Addr) (amt : Nat)
   · simp only [effect] at h
     split at h
     · cases h
-    · cases h
-      refine ⟨by simp [World.raw, World.setRaw, claim, upd, ha], ?_, hout _⟩
-      intro hh; cases hh
+    · split at h
+      · cases h
+      · cases h
+        refine ⟨by simp [World.raw, World.setRaw, claim, upd, ha], ?_, hout _⟩
+        intro hh; cases hh
 -- non-vacuity: an undelegation on a validator slashed by a third (200 tokens for 300 shares) goes through
 example : (∃ w', effect ⟨"undelegateV2", false, .caller, false⟩ 1 1 (.undelegate 4)
     ⟨fun _ => 10, fun _ => 10, fun _ => 0, fun _ => 0, fun _ _ => 0, [], 1, fun _ => 0, 200, 300 * shareScale⟩ = .ok w') ∧
@@ -960,7 +968,9 @@ theorem uninvolved_unchanged (dis : List (List Char)) (ro : Bool) (addr mid : Li
         simp only [specEffect, effect] at h
         split at h
         · cases h
-        · cases h; simp [claim, upd, ha, World.setRaw]
+        · split at h
+          · cases h
+          · cases h; simp [claim, upd, ha, World.setRaw]
       | crossChain x y r =>
         simp only [specEffect, effect] at h
         split at h
